@@ -177,6 +177,10 @@ def ssh1_faults(d, rnd, tier):
             for v in (0, 0xffff, 7):
                 out.append(('ssh1-bits@%d=%d' % (off, v), (lambda _d, off=off, v=v: [_w.frame1(ptype, data[:off] + struct.pack('>H', v) + data[off + 2:])])))
     out.append(('ssh1-trailing', lambda _d: [_w.frame1(ptype, data + b'\x00' * 9)]))
+    # the cipher and authentication masks (the last two words) with reserved bits set
+    if len(data) >= 8:
+        for cm, am in ((0x148, 0x2c), (0x4c, 0xffffffff), (0xffffffff, 0xffffffff), (0x80000000, 0x100)):
+            out.append(('ssh1-masks=%x/%x' % (cm, am), (lambda _d, cm=cm, am=am: [_w.frame1(ptype, data[:-8] + struct.pack('>II', cm, am))])))
     return out
 
 
@@ -222,6 +226,10 @@ def line_faults(d, rnd, tier):
     out.append(('longline', lambda d: [b'SSH-2.0-' + b'A' * 70000 + b'\r\n']))
     out.append(('ssh1only', lambda d: [b'SSH-1.5-OldServer\r\n']))
     out.append(('notssh', lambda d: [b'HTTP/1.1 400 Bad Request\r\n\r\n', fakenet.EOF]))
+    # well-formed identification strings whose software version is odd: empty components, a lone dot, huge numbers, no digits
+    for i, sw in enumerate((b'OpenSSH_8..9p1', b'dropbear_2022..83', b'OpenSSH_.5', b'libssh_0.', b'libssh-0..10.6', b'OpenSSH_99999999999999999999.1', b'OpenSSH_', b'dropbear_',
+                            b'OpenSSH_7.4.', b'OpenSSH_1.2.3.4.5.6.7.8.9')):
+        out.append(('oddversion%d' % i, (lambda d, sw=sw: [b'SSH-2.0-' + sw + b'\r\n'])))
     return out
 
 
@@ -557,6 +565,8 @@ def fault_class(what):
     w = re.sub(r'ssh1-short@\d+', 'ssh1-short', w)
     w = re.sub(r'ssh1-bits@\d+=\d+', 'ssh1-bits', w)
     w = re.sub(r'ssh1-type=\d+', 'ssh1-type', w)
+    w = re.sub(r'ssh1-masks=[0-9a-f]+/[0-9a-f]+', 'ssh1-masks', w)
+    w = re.sub(r'oddversion\d+', 'oddversion', w)
     w = re.sub(r'strlen@\d+=\d+', 'strlen', w)
     w = re.sub(r'strlen@\d+=huge', 'strlen=huge', w)
     w = re.sub(r'strbyte@\d+/(first|last)=', 'strbyte=', w)
